@@ -3,7 +3,7 @@
 # recorded in its meta.json (thorough for the few that only show at scale).  usage: recheck_all_seeds.sh [pattern]
 cd /verif
 PAT=${1:-}
-THOROUGH=" C01-r4-reciprocal-with-epsilon-at-scale C10-r4-clique-enumeration-capped-at-1e6 C03-r5-modulo-bias-20-bit-words C10-r6-unbounded-cover-ignores-cliques-above-20 C09-r6-score-zero-tolerance-1e-6 "
+THOROUGH=" C01-r4-reciprocal-with-epsilon-at-scale C10-r4-clique-enumeration-capped-at-1e6 C10-r6-unbounded-cover-ignores-cliques-above-20 C09-r6-score-zero-tolerance-1e-6 C09-r8-score-zero-after-rounding-to-6-digits "
 bad=0; n=0
 for d in seeded/*${PAT}*/; do
   name=$(basename $d)
